@@ -16,14 +16,14 @@ Import ListNotations.
 Open Scope Z_scope.
 
 (* ================= 0. the hand model still has the shape of the source ========================= *)
-(* gen_* are regenerated from the ast of tlslite/handshakesettings.py on every run: the 41 assignments of
-   the three _copy_* methods (all `other.x = self.x`), the statement sequence of validate(), every
-   in-place list mutation site, every re-binding of an attribute of `other` to a new object outside the
-   copy phase (versions, macNames, cipherImplementations, cipherNames), the attributes set by __init__. *)
+(* gen_* are regenerated on every run from the flattened, normalised ast of validate() and everything it calls
+   (translator/c19_astnorm.py): the 43 assignments `other.x = self.x` of the copy phase, every in-place list
+   mutation, every re-binding of an attribute of `other` to a new object (versions, macNames,
+   cipherImplementations, cipherNames), the attributes set by __init__.  (A digest of the whole normal form is
+   compared by the harness; a difference is a broken tie.) *)
 Theorem model_skeleton_matches_source :
-  gen_copies = expected_copies /\ gen_validate_seq = expected_validate_seq /\
-  gen_mutation_sites = expected_mutation_sites /\ gen_rebinds = expected_rebinds /\
-  gen_init_attrs = expected_init_attrs.
+  gen_copies = expected_copies /\ gen_mutation_sites = expected_mutation_sites /\
+  gen_rebinds = expected_rebinds /\ gen_init_attrs = expected_init_attrs.
 Proof. exact skeleton_ok. Qed.
 
 (* ================= 1. "never modifies it" ===================================================== *)
